@@ -396,6 +396,12 @@ fn scenario_coq(sc: &Scenario) -> String {
         sc.own_refs.iter().map(|x| *x as u64).collect::<Vec<_>>().coq())
 }
 
+enum Forced {
+    Ev(Ev),
+    FreshInv,
+    Redeliver,
+}
+
 #[derive(Default)]
 struct Oracle {
     /// every delivery: (step, peer, pool index, clock at receipt, stored by this delivery?)
@@ -409,7 +415,28 @@ struct Oracle {
 
 fn run_case(run: &mut Run, prop: &str, id: &str, seed: u64, stream: u64, index: u64, len: usize) {
     let mut r = Rng::for_case(seed, stream, index);
-    let sc = gen_scenario(&mut r);
+    let mut sc = gen_scenario(&mut r);
+    // stream 2: phased scenarios — periodic tasks (gossip 6 s, idle 30 s, sync 60 s, prune 30 min,
+    // announce 60 min) are driven OUT OF PHASE with the gossip tick, with fresh inventory
+    // announcements delivered (and re-delivered by other peers) in the window in between
+    let mut forced: std::collections::VecDeque<Forced> = Default::default();
+    if stream == 2 {
+        sc.known0 = (1..=sc.npeers).collect();
+        sc.relay = true;
+        for p in 1..=sc.npeers { forced.push_back(Forced::Ev(Ev::Connect(p))); }
+        forced.push_back(Forced::Ev(Ev::Elapse(1)));
+        let rounds = r.range(1, 2);
+        for _ in 0..rounds {
+            let period = *r.pick(&[1_800_000u64, 1_800_000, 3_600_000, 30_000, 60_000]);
+            let k = r.range(1, 5_999);
+            forced.push_back(Forced::Ev(Ev::Elapse(period - k)));
+            for _ in 0..r.range(1, 3) { forced.push_back(Forced::FreshInv); }
+            if r.bool() { forced.push_back(Forced::Redeliver); }
+            forced.push_back(Forced::Ev(Ev::Elapse(k)));
+            if r.bool() { forced.push_back(Forced::Redeliver); }
+            forced.push_back(Forced::Ev(Ev::Elapse(6_000)));
+        }
+    }
     let mut w = build_world(&sc, seed ^ index);
     let mut pool: Vec<AnnSpec> = vec![];
     let mut evs: Vec<Ev> = vec![];
@@ -431,7 +458,23 @@ fn run_case(run: &mut Run, prop: &str, id: &str, seed: u64, stream: u64, index: 
     run.eval();
     for step in 0..len {
         // ---- choose an event
-        let ev = match r.below(20) {
+        let ev = if let Some(f) = forced.pop_front() {
+            match f {
+                Forced::Ev(e) => e,
+                Forced::Redeliver if !pool.is_empty() =>
+                    Ev::RecvAnn(r.range(1, sc.npeers as u64) as usize, pool.len() - 1),
+                Forced::Redeliver => Ev::Elapse(1),
+                Forced::FreshInv => {
+                    let node = r.range(1, sc.npeers as u64) as usize;
+                    let p = r.range(1, sc.npeers as u64) as usize;
+                    let inv: Vec<usize> = (1..=sc.nrids).filter(|_| r.chance(2, 3)).collect();
+                    let ts = clock - r.below(1000);
+                    let a = make_ann(&w, &mut r, node, Kind::Inv, 0, ts + step as u64, true, inv, false, false);
+                    pool.push(a);
+                    Ev::RecvAnn(p, pool.len() - 1)
+                }
+            }
+        } else { match r.below(20) {
             0 | 1 => Ev::Connect(r.range(1, sc.npeers as u64) as usize),
             2 => Ev::Disconnect(r.range(1, sc.npeers as u64) as usize),
             3 | 4 => {
@@ -486,7 +529,7 @@ fn run_case(run: &mut Run, prop: &str, id: &str, seed: u64, stream: u64, index: 
                     Ev::RecvAnn(p, pool.len() - 1)
                 }
             }
-        };
+        } };
         let ev = if matches!(ev, Ev::AddInventory(0)) { Ev::Elapse(1) } else { ev };
         // ---- pre-state needed by the oracle
         let pre_row_ts: Option<Option<u64>> = if let Ev::RecvAnn(_, i) = &ev {
@@ -674,9 +717,9 @@ fn main() {
         run.case("consts", "GConsts".into(), format!("(GConstsAre {} {} {})",
             service::MAX_TIME_DELTA.as_millis(), service::GOSSIP_INTERVAL.as_millis(), service::ANNOUNCE_INTERVAL.as_millis()));
     }
-    let n = run.args.count(160, 2500);
+    let n = run.args.count(110, 1700);
     for i in 0..n {
-        for (stream, len) in [(0u64, 14usize), (1u64, 40usize)] {
+        for (stream, len) in [(0u64, 14usize), (1u64, 40usize), (2u64, 26usize)] {
             let id = format!("{}:{}", stream, i);
             if !run.args.wants(&id) { continue; }
             run_case(&mut run, &prop, &id, seed, stream, i, len);
